@@ -502,6 +502,8 @@ class ArmiObject(metaclass=CompositeModelType):
         other : ArmiObject
             The object to copy params from
         """
+        if self.p.readOnly:
+            raise RuntimeError(f"Cannot overwrite the parameters of read-only {self}.")
         self.p = other.p.__class__()
         for p, val in other.p.items():
             self.p[p] = val
